@@ -100,8 +100,11 @@ func newPkg(pkg *packages.Package, u *Universe) Package {
 		fl := fileLineFor(stmtPos, 0)
 
 		if c != nil && c.Pos() == stmtPos {
-			// stmt is CommentGroup
-			fl = fileLineFor(c.End(), 0)
+			// stmt is CommentGroup: the line its last comment ends on, counted from where that comment starts
+			// (End() assumes the text is what the file holds, but the scanner takes the \r of \r\n line ends out of
+			// a /* */ comment: in such a file End() of a comment of several lines lies before its real end)
+			last := c.List[len(c.List)-1]
+			fl = fileLineFor(last.Slash, strings.Count(last.Text, "\n"))
 		} else if !isTrailing {
 			fl = fileLineFor(stmtPos, -1)
 		}
